@@ -72,8 +72,27 @@ def expand_splits(eng, cls, prefix='self'):
     return out
 
 
+def target_splits(eng, qual, cls):
+    """Case splits of one target; a lemma program over twin objects splits both objects the same way."""
+    from . import spec as specmod
+    sp = specmod.lookup(eng.repo, qual, cls)
+    tw = getattr(sp, 'twins', None)
+    if not tw:
+        return expand_splits(eng, cls)
+    out = []
+    for f in expand_splits(eng, cls, prefix=tw[0]):
+        g = dict(f)
+        for k, v in f.items():
+            for other in tw[1:]:
+                g[other + k[len(tw[0]):]] = v
+        out.append(g)
+    return out
+
+
 def props_of_spec(sp):
     ps = set(sp.props)
+    if not sp.qual.startswith('lemma_'):
+        ps.add('C20')       # every function under contract carries the arm-parametricity obligation (MT3)
     for cl in sp.requires + sp.ensures + sp.ensures_raises:
         if cl.props:
             ps |= set(cl.props)
@@ -203,7 +222,7 @@ def run_property(eng, prop, args):
             targets.append((qual, cls))
     split = []
     for qual, cls in sorted(set(targets)):
-        for f in expand_splits(eng, cls):
+        for f in target_splits(eng, qual, cls):
             split.append((qual, cls, tuple(sorted(f.items()))))
     gen = generate(eng, split, args.jobs)
     records = []
@@ -282,7 +301,35 @@ def finish(eng, prop, tier, seed, targets, records, problems, crashes, missing, 
         print('VIOLATION property=%s replay=%s obligation=%s%s' % (
             prop, path, r['name'], '' if found else ' no-failing-input-found'))
         status = 1
+    # ---- bounded runtime leg (stand-in for the modules out of the prover's reach; never counted as proved)
+    args.bounded = []
+    rt_known = []
+    if prop != 'all' and not getattr(args, 'no_rt', False):
+        from . import runtime
+        summary, new_fail, rt_known, rt_err = runtime.bounded_leg(eng, prop, tier, seed)
+        if summary:
+            args.bounded.append(summary)
+        for k, fl in enumerate(new_fail):
+            path = os.path.join('replays', '%s-rt-%s.json' % (prop, hashlib.sha1(json.dumps(fl.get('case'), sort_keys=True,
+                                                                 default=str).encode()).hexdigest()[:12]))
+            with open(os.path.join(ROOT, path), 'w') as fh:
+                json.dump({'property': prop, 'obligation': 'rt.%s (bounded runtime leg)' % prop, 'failing_input': fl,
+                           'seed': seed, 'source_digest': eng.repo.digest,
+                           'replay': 'PYTHONPATH=<tree>:/verif /venv/bin/python -m rt.replay ' + path}, fh, indent=1, default=str)
+            print('VIOLATION property=%s replay=%s obligation=rt.%s[%s] %s' % (prop, path, prop, fl.get('where'),
+                                                                             fl.get('what', '')[:300]))
+            status = 1
+            violations.append({'name': 'rt.%s' % prop, 'status': 'failing input', 'reason': fl.get('what', '')})
+        if rt_err:
+            print('UNDECIDED property=%s the bounded runtime leg did not complete: %s' % (prop, str(rt_err)[-400:]))
+            problems = list(problems) + [('rt.' + prop, 'error', str(rt_err)[-400:], [])]
+    args.rt_known_ids = sorted({f['id'] for f, _ in rt_known})
     printed = set()
+    for f, fl in rt_known:
+        if f['id'] in printed:
+            continue
+        printed.add(f['id'])
+        print('KNOWN-FINDING: property=%s %s (%s: bounded runtime leg, %s)' % (prop, f['what'], f['id'], fl.get('what', '')[:200]))
     for f, r in known_hits:
         if f['id'] in printed:
             continue
@@ -299,6 +346,22 @@ def finish(eng, prop, tier, seed, targets, records, problems, crashes, missing, 
         print('CHECKER-ERROR in %s\n%s' % (target, err))
     n = len(records)
     d = sum(1 for r in records if r['status'] == 'discharged')
+    args.lean = None
+    if tier == 'thorough' and any(k == 'lemma' for r in records for _, k in r['axioms']):
+        # the algebraic laws the lemma programs rely on are re-proved in Lean 4 / Mathlib (tools/lean_check.py)
+        import subprocess
+        try:
+            pr = subprocess.run([sys.executable, os.path.join(ROOT, 'tools', 'lean_check.py')], capture_output=True,
+                                text=True, timeout=3600)
+            args.lean = json.loads(pr.stdout.strip().splitlines()[-1])
+        except Exception as e:      # noqa
+            args.lean = {'ok': False, 'error': repr(e)}
+        if not args.lean.get('ok'):
+            print('CHECKER-ERROR the Lean proofs of the algebraic laws did not check: %s' % args.lean.get('error'))
+            crashes = list(crashes) + [('lean', args.lean.get('error'))]
+        else:
+            print('lean: %d laws re-proved in %.0fs (axioms: %s)' % (args.lean['theorems_checked'], args.lean['seconds'],
+                                                                     ', '.join(args.lean['axioms_used'])))
     if status == 0:
         if crashes or n == 0:
             status = 3
@@ -351,10 +414,12 @@ def write_evidence(eng, prop, tier, seed, targets, records, problems, known_hits
             'undischarged': [{'obligation': r['name'], 'status': r['status'], 'reason': r['reason']}
                              for r in records if r['status'] != 'discharged'],
             'out_of_reach': [{'function': p[0], 'why': p[2]} for p in problems],
-            'known_findings': sorted({f['id'] for f, _ in known_hits}),
+            'known_findings': sorted({f['id'] for f, _ in known_hits} | set(getattr(args, 'rt_known_ids', []))),
             'known_finding_obligations': sorted({r['name'] for _, r in known_hits}),
             'samples': samples,
-            'bounded': [],
+            'bounded': getattr(args, 'bounded', []),
+            'lean_laws': getattr(args, 'lean', None) or
+            'laws of kind "lemma" are re-proved by the thorough tier (tools/lean_check.py, lemmas/lean/SeqLaws.lean)',
         },
         'assumptions': assumptions(),
         'wall_s': round(time.time() - t0, 2),
@@ -370,6 +435,11 @@ def trusted_base(axioms):
            'z3 5.1.0 (python3-vt), /usr/bin/cvc5 1.0.3 for queries z3 leaves open',
            'sidecar contracts in /verif/specs transcribe the property statements']
     for kind in sorted(axioms):
+        if kind == 'lemma':
+            out.append('algebraic laws used as SMT axioms and proved in Lean 4 / Mathlib over the list model '
+                       '(lemmas/lean/SeqLaws.lean; the naming correspondence z3 symbol <-> Lean definition is trusted): '
+                       + ', '.join(sorted(axioms[kind])))
+            continue
         out.append('%s axioms used: %s' % (kind, ', '.join(sorted(axioms[kind]))))
     return out
 
